@@ -495,7 +495,13 @@ def r_generated(ctx, res):
     unanchored = []
     noanchor = []
     nrec = 0
-    for g in gen.load_set(ctx.dir("gen-functions")):
+    allg = list(gen.load_set(ctx.dir("gen-functions")))
+    try:
+        from . import witness
+        allg += [g for _e, g in witness.load(ctx)[0] if g is not None]      # regex shapes no in-repo grammar has ($, quotes, ..)
+    except Exception:      # noqa - the witness set is an extra
+        pass
+    for g in allg:
         if g.settings["lexer_type"] != "Default" or g.parse_error:
             continue
         name = (g.name or "").replace("target:", "")
